@@ -115,7 +115,18 @@ func runC01(e *core.Env) error {
 			if err != nil {
 				return err
 			}
-			root := config.Root{Integrations: []config.Integration{transferIG("ig1", "t1", core.Pick(rr, plans), nil)}}
+			var ig1 config.Integration
+			switch rr.Intn(6) {
+			case 0:
+				ig1 = traceIG("ig1", "t1") // blocks + trace_block
+			case 1:
+				ig1 = transferIG("ig1", "t1", nil, nil) // logs only: the fetched blocks carry no parent hashes
+			case 2:
+				ig1 = txIG("ig1", "t1", []string{"tx_hash", "tx_input", "block_time"})
+			default:
+				ig1 = transferIG("ig1", "t1", core.Pick(rr, plans), nil)
+			}
+			root := config.Root{Integrations: []config.Integration{ig1}}
 			if err := w.setupRoot(&root); err != nil {
 				w.close()
 				return err
